@@ -4,6 +4,22 @@ import json, os
 V = os.path.dirname(os.path.dirname(os.path.abspath(__file__)))
 
 CHECKS = {
+ "C17": dict(
+    technique="runtime oracle: argument recorder inside generated functions + reference-model ratios and dimension vectors vs ureg.wraps / ureg.check",
+    text="Generated functions (1-5 parameters; positional-only, keyword-only, defaults) record exactly what they receive; wraps specs from {unit string, Unit, None, =A, =A*B, =A**2, =A/B ...} "
+         "and scalar/tuple return specs, strict on/off; calls mix positional, keyword and omitted-default passing with compatible, incompatible, bare and arbitrary arguments. Expected "
+         "magnitudes are value x model ratio over exact Fractions (never pint's convert), expected DimensionalityError from model dimension vectors; ureg.check raises iff a position "
+         "mismatches; parameter-count mismatches must be rejected at decoration time; offset units with declared-unit specs.",
+    note="a bare number for an '=A' spec is treated as dimensionless by pint's own tests: strict/non-strict clauses decided on declared-unit specs only; three recorded findings (W1-W3)",
+    ref="4/C17"),
+ "C18": dict(
+    technique="runtime oracles: structural fingerprints across copy/pickle/tuple round trips (fresh subprocess for unpickling), cross-registry operator matrix, fresh-twin comparison of deep-copied and lazy registries",
+    text="Every canonical unit and random compounds (prefixed, 19 magnitude kinds) through pickle 0-5, copy, deepcopy, tuple form in three numeric registries; unpickling in a fresh "
+         "subprocess whose application registry never saw the prefixed units (attachment and pre-registration observed); all 15 exception classes; 21 operators x 7 operand kinds x 4 "
+         "registry pairs must raise ValueError; 26 kinds of evolution applied to one side of a deep-copied pair, each side compared with a fresh twin that received that side's history; "
+         "the lazy default registry and module-level classes probed against an explicit registry (~1500 queries).",
+    note="cross-registry == is observed, not alarmed (statement speaks of arithmetic and ordering); five recorded findings (X1-X5)",
+    ref="4/C18"),
  "C09": dict(
     technique="runtime oracles: independent per-format readers (D, C, P, H, L, Lx) recover names/exponents/positions from every rendering; Python's own format() for magnitudes; parse-back round trip; fingerprints",
     text="Every canonical unit x exponents {1,-1,2,-2} x 16 specs as Unit and as Quantity (79 680 cells, complete in both tiers) plus random compounds (1-5 terms, integer/fractional "
